@@ -5,6 +5,8 @@ import DvcData.Model.Md5
 import DvcData.Model.Hash
 import DvcData.Model.Tree
 import DvcData.Model.Serialize
+import DvcData.Model.Status
+import DvcData.Model.Transfer
 open Lean DvcData
 
 /-! Line-protocol driver: one JSON request per line on stdin, one JSON answer per line on stdout.
@@ -241,6 +243,92 @@ def opEntries (j : Lean.Json) : Except String Lean.Json := do
   pure (Lean.Json.mkObj [("to_dict", Lean.Json.arr dicts.toArray), ("back", Lean.Json.arr back.toArray),
     ("proj", Lean.Json.arr (es.map fun p => projTo p.2).toArray), ("joined", rt), ("trie", rtT)])
 
+/-! ### status / transfer / gc over string identifiers -/
+
+def strArr (l : List String) : Lean.Json := Lean.Json.arr (l.map Lean.Json.str).toArray
+
+def isDirStr (s : String) : Bool := s.endsWith ".dir"
+
+/-- "L": [[dir, [entries...]], ...] -/
+def listingOf (j : Lean.Json) : Except String (List (String × List String)) := do
+  (← arr j "L").toList.mapM fun p => do
+    match (← p.getArr?).toList with
+    | [d, es] => pure (← d.getStr?, ← (← es.getArr?).toList.mapM (·.getStr?))
+    | _ => throw "bad listing"
+
+def lookupL (l : List (String × List String)) (d : String) : Option (List String) :=
+  (l.find? (·.1 = d)).map (·.2)
+
+def rindexOf (j : Lean.Json) (f : String) : Except String (Option (Status.RIndex String)) :=
+  match j.getObjVal? f with
+  | .ok .null => pure none
+  | .error _ => pure none
+  | .ok o => do pure (some { dirs := ← strList o "dirs", files := ← strList o "files" })
+
+def rindexTo : Option (Status.RIndex String) → Lean.Json
+  | none => .null
+  | some i => Lean.Json.mkObj [("dirs", strArr i.dirs), ("files", strArr i.files)]
+
+/-- an environment whose trees are loadable iff the directory object is in `cache` -/
+def envOf (l : List (String × List String)) (cache : List String) : Status.Env String :=
+  { isDir := isDirStr, load := fun d => if d ∈ cache then lookupL l d else none }
+
+def opStatus (j : Lean.Json) : Except String Lean.Json := do
+  let l ← listingOf j
+  let store ← strList j "store"
+  let cache ← strList j "cache"
+  let req ← strList j "req"
+  let idx ← rindexOf j "index"
+  match Status.status (envOf l cache) store idx (boolOf j "shallow") req with
+  | .notFound => pure (Lean.Json.mkObj [("err", "FileNotFoundError")])
+  | .ok o => pure (Lean.Json.mkObj [("exists", strArr o.exist), ("missing", strArr o.missing), ("index", rindexTo o.index)])
+
+def opCompare (j : Lean.Json) : Except String Lean.Json := do
+  let l ← listingOf j
+  let src ← strList j "src"
+  let dest ← strList j "dest"
+  let req ← strList j "req"
+  let idx ← rindexOf j "index"
+  match Status.compareStatus (envOf l src) (envOf l src) src dest false idx (boolOf j "shallow") (boolOf j "check_deleted") req with
+  | .notFound => pure (Lean.Json.mkObj [("err", "FileNotFoundError")])
+  | .ok c => pure (Lean.Json.mkObj [("ok", strArr c.ok), ("missing", strArr c.missing), ("new", strArr c.new),
+      ("deleted", strArr c.deleted), ("index", rindexTo c.destIndex)])
+
+def opTransfer (j : Lean.Json) : Except String Lean.Json := do
+  let l ← listingOf j
+  let src ← strList j "src"
+  let dest ← strList j "dest"
+  let req ← strList j "req"
+  let fails ← strList j "fails"
+  let order ← strList j "dir_order"
+  let idx ← rindexOf j "index"
+  match Status.compareStatus (envOf l src) (envOf l src) src dest false idx (boolOf j "shallow") false req with
+  | .notFound => pure (Lean.Json.mkObj [("err", "FileNotFoundError")])
+  | .ok c =>
+    let cx : Transfer.Ctx String :=
+      { L := fun d => (lookupL l d).getD [], isDir := isDirStr, fails := fun x => x ∈ fails, missing := c.missing }
+    let newDirs := c.new.filter isDirStr
+    -- processing order: the order observed on the implementation, completed by the remaining new dirs
+    let dirOrder := (order.filter (· ∈ newDirs)) ++ newDirs.filter (· ∉ order)
+    let r := Transfer.transferWith cx dest c.new c.destIndex dirOrder
+    pure (Lean.Json.mkObj [("transferred", strArr r.transferred), ("failed", strArr r.failed),
+      ("dest", strArr r.dest), ("index", rindexTo r.destIndex), ("new", strArr c.new), ("missing", strArr c.missing),
+      ("src_index_cleared", .bool r.srcIndexCleared)])
+
+def opGc (j : Lean.Json) : Except String Lean.Json := do
+  let l ← listingOf j
+  let store ← strList j "store"
+  let cache ← strList j "cache"
+  let hn ← str j "hash_name"
+  let used ← (← arr j "used").toList.mapM fun p => do
+    match (← p.getArr?).toList with
+    | [n, v] => pure (← n.getStr?, ← v.getStr?)
+    | _ => throw "bad used"
+  match Status.gc (envOf l cache) hn (boolOf j "read_only") (boolOf j "shallow") (boolOf j "dry") store used with
+  | .permission => pure (Lean.Json.mkObj [("err", "ObjectDBPermissionError")])
+  | .notFound => pure (Lean.Json.mkObj [("err", "FileNotFoundError")])
+  | .ok n st => pure (Lean.Json.mkObj [("removed", n), ("store", strArr st)])
+
 def kindOf (s : String) : Except String Merge.Kind :=
   match s with
   | "add" => pure .add | "remove" => pure .remove | "change" => pure .change
@@ -270,6 +358,10 @@ def dispatch (j : Json) : Except String Json := do
   | "esc_range" => opEscRange j
   | "path" => opPath j
   | "entries" => opEntries j
+  | "status" => opStatus j
+  | "compare" => opCompare j
+  | "transfer" => opTransfer j
+  | "gc" => opGc j
   | "ping" => pure (Json.mkObj [("pong", true)])
   | op => throw s!"unknown op {op}"
 
